@@ -524,13 +524,28 @@ def run_case(case, ctx):
         import copy as _copy
         from tracklib.core.spatial_index import SpatialIndex
         dx, dy = 2.5, -1.5                  # a correction of a few metres: what was near stays near
-        for e in network.EDGES.values():
-            for o in e.geom.getObsList():
-                o.position.setX(o.position.getX() + dx)
-                o.position.setY(o.position.getY() + dy)
-        for nd in network.NODES.values():
-            nd.coord.setX(nd.coord.getX() + dx)
-            nd.coord.setY(nd.coord.getY() + dy)
+        interior_only = (len(net["edges"]) + len(net["nodes"])) % 2 == 1 and any(len(e["pts"]) > 2 for e in net["edges"])
+        if interior_only:
+            # ... or only the INTERIOR vertices of the multi-vertex edges are corrected (a bend digitised again): nodes,
+            # end points and vertex counts stay; the curvilinear abscissas of those geometries are computed again
+            from tracklib.algo.cinematics import computeAbsCurv
+            for e in network.EDGES.values():
+                obs_ = e.geom.getObsList()
+                if len(obs_) > 2:
+                    for o in obs_[1:-1]:
+                        o.position.setX(o.position.getX() + dx)
+                        o.position.setY(o.position.getY() + dy)
+                    M.call(e.geom.removeAnalyticalFeature, "abs_curv")
+                    M.call(computeAbsCurv, e.geom)
+            cls.add("history_interior_vertices_of_edges_moved_in_place")
+        else:
+            for e in network.EDGES.values():
+                for o in e.geom.getObsList():
+                    o.position.setX(o.position.getX() + dx)
+                    o.position.setY(o.position.getY() + dy)
+            for nd in network.NODES.values():
+                nd.coord.setX(nd.coord.getX() + dx)
+                nd.coord.setY(nd.coord.getY() + dy)
         ix = net["index"]
         res = tuple(ix["resolution"]) if ix["resolution"] is not None else None
         rb = M.call(lambda: (setattr(network, "spatial_index", SpatialIndex(network, resolution=res, margin=ix["margin"],
@@ -538,13 +553,19 @@ def run_case(case, ctx):
         if M.is_raised(rb):
             raise M.HarnessError("re-preparing the moved network failed: " + rb.brief())
         net2 = _copy.deepcopy(net)
-        net2["nodes"] = {k: [v[0] + dx, v[1] + dy] for k, v in net["nodes"].items()}
-        for e in net2["edges"]:
-            e["pts"] = [[q[0] + dx, q[1] + dy] for q in e["pts"]]
         mt2 = _copy.deepcopy(case["matchings"][0])
         mt2["mode"] = "single" if mt2["mode"] == "rematch" else mt2["mode"]
-        for t in mt2["tracks"]:
-            t["fixes"] = [[f[0] + dx, f[1] + dy, f[2], f[3]] for f in t["fixes"]]
+        mt2.pop("moved", None)
+        if interior_only:
+            for e in net2["edges"]:
+                if len(e["pts"]) > 2:
+                    e["pts"] = [e["pts"][0]] + [[q[0] + dx, q[1] + dy] for q in e["pts"][1:-1]] + [e["pts"][-1]]
+        else:
+            net2["nodes"] = {k: [v[0] + dx, v[1] + dy] for k, v in net["nodes"].items()}
+            for e in net2["edges"]:
+                e["pts"] = [[q[0] + dx, q[1] + dy] for q in e["pts"]]
+            for t in mt2["tracks"]:
+                t["fixes"] = [[f[0] + dx, f[1] + dy, f[2], f[3]] for f in t["fixes"]]
         case2 = dict(case, net=net2, matchings=list(case["matchings"]) + [mt2])
         w = _run_matching(case2, network, mt2, len(case["matchings"]), ctx, cls, stats)
         cls.add("history_network_moved_in_place_and_prepared_again")
